@@ -13,6 +13,9 @@ import Pyunicorn.Model.Window
   | `sh=<perms>` (shuffled_anomaly, one permutation per column, rows separated by `;`)
   | `cs` (`__cache_state__()`: the counter `_mut_window`)
 
+`runreg <c> <anomflag> <init> <time> <latgrid> <longrid> <obs> <op>*`: the same on a file
+loaded from a regular grid (`Data.Load`): the node sequences are computed by the model.
+
 `ry <T> <c>`: `int(T / c)` as evaluated in IEEE double (`rangeYearsF`), and `T // c`.
 
 Answer: the outputs of the operations joined by `|`.
@@ -101,6 +104,17 @@ def answer (toks : List String) : String :=
   match toks with
   | "run" :: c :: fl :: init :: time :: lat :: lon :: obs :: ops =>
     let full : View := ⟨rats time, rats lat, rats lon, ratMat obs⟩
+    let w : Option (Option Win) :=
+      if init == "G" then some none
+      else if init.startsWith "W=" then (parseWin (init.drop 2).toString).map some else none
+    match w with
+    | none => "bad-init"
+    | some w =>
+      match Obj.init full c.toNat! (fl == "1") w with
+      | none => "raise:ValueError"
+      | some o => join ("ok" :: runOps o ops) "|"
+  | "runreg" :: c :: fl :: init :: time :: latg :: long :: obs :: ops =>
+    let full : View := loadRegular (rats time) (rats latg) (rats long) (ratMat obs)
     let w : Option (Option Win) :=
       if init == "G" then some none
       else if init.startsWith "W=" then (parseWin (init.drop 2).toString).map some else none
